@@ -3228,9 +3228,16 @@ impl<'a> Visitor<'a, '_, Error> for JSONValidator<'a> {
             Some(ControlOperator::LE) if i <= *v as u64 => None,
             Some(ControlOperator::GT) if i > *v as u64 => None,
             Some(ControlOperator::GE) if i >= *v as u64 => None,
-            Some(ControlOperator::SIZE) => match 256u128.checked_pow(*v as u32) {
-              Some(n) if (i as u128) < n => None,
-              _ => Some(format!("expected value .size {}, got {}", v, n)),
+            // uint .size v: the value fits in v bytes. When 256^v does not fit
+            // in 128 bits (v >= 16) every 64-bit integer does.
+            Some(ControlOperator::SIZE) => match u32::try_from(*v)
+              .ok()
+              .and_then(|bytes| 256u128.checked_pow(bytes))
+            {
+              Some(limit) if (i as u128) >= limit => {
+                Some(format!("expected value .size {}, got {}", v, n))
+              }
+              _ => None,
             },
             #[cfg(feature = "additional-controls")]
             Some(ControlOperator::PLUS) => {
